@@ -20,7 +20,10 @@ Record qcase := QC {
   qc_stale : list (list pubmsg);           (* per request sent to its subject in a LATER Serve run: what was published on the reply subject *)
   qc_dur_us : N;                           (* the configured query event duration, microseconds *)
   qc_life_us : option N;                   (* microseconds from the subscription to the start of the expiry callback; None = not expired *)
-  qc_within : list N                       (* requests accepted into the channel less than the duration after the subscription *)
+  qc_within : list N;                      (* requests accepted into the channel less than the duration after the subscription *)
+  qc_late_us : option N;                   (* microseconds between the moment the expiry callback could first start (duration elapsed and
+                                              the previous expiry callback of the timer released) and its start; None = not expired *)
+  qc_panicked : list N                     (* requests whose callback was seen panicking before any response had been published *)
 }.
 
 (* ---- decidable equalities ---- *)
@@ -112,7 +115,9 @@ Definition required_error (p : payload) (o : list pubmsg) : bool :=
          11 the callback was invoked with, or later saw, a query that is not the one its request carried
             (recorded as invocation id 999999)
          12 the query event was expired before the configured duration had elapsed
-         13 a request accepted into the channel within the configured duration never got its callback *)
+         13 a request accepted into the channel within the configured duration never got its callback
+         14 the expiry callback started more than 1 s after the configured duration had elapsed (and the timer was free)
+         15 a callback that panicked before any reply was answered with something else than an error *)
 Definition viol_case (c : qcase) : list N :=
   let tr := qc_trace c in
   let calls := qc_calls c in
@@ -137,7 +142,10 @@ Definition viol_case (c : qcase) : list N :=
   (if forallb (fun o => Nat.eqb (length o) 0) (qc_stale c) then [] else [10%N]) ++
   (if memN 999999 ids then [11%N] else []) ++
   (match qc_life_us c with Some t => if N.ltb t (qc_dur_us c) then [12%N] else [] | None => [] end) ++
-  (if ok_run && subok && negb (forallb (fun i => memN i ids) (qc_within c)) then [13%N] else []).
+  (if ok_run && subok && negb (forallb (fun i => memN i ids) (qc_within c)) then [13%N] else []) ++
+  (match qc_late_us c with Some t => if N.ltb 1000000 t then [14%N] else [] | None => [] end) ++
+  (if forallb (fun i => match the_resp (lookup i (qc_resps c)) with Some r => is_error r | None => true end) (qc_panicked c)
+   then [] else [15%N]).
 
 Fixpoint run_idx {A} (f : A -> list N) (i : N) (cs : list A) : list (N * N) :=
   match cs with
